@@ -308,7 +308,7 @@ pub fn classify(sys: &Sys) -> Result<(Band, SlackCert), String> {
         }
         return Ok((band, SlackCert { t: c.t, x: c.x, y, ycap: c.ycap }));
     }
-    // "Non-empty by a margin" (Thick): there is a point x, |x_j| <= 2^27, at which EVERY row has a slack of at
+    // "Non-empty by a margin" (Thick): there is a point x, |x_j| <= 2^24, at which EVERY row has a slack of at
     // least 1e-4 plus 2^-20 of that row's activity sum_j |a_ij||x_j| + |b_i|. The absolute part is the band of
     // the first design; the relative part says the slack must be significant at the magnitude of the numbers
     // involved, which is what a floating-point LP solver can resolve. History of this criterion (DESIGN.md §8):
@@ -353,7 +353,7 @@ pub fn classify(sys: &Sys) -> Result<(Band, SlackCert), String> {
         return Ok((Band::Empty, cert_norm));
     }
     if n > 0 {
-        let far = Q::int(1 << 27);
+        let far = Q::int(1 << 24);
         let mut aug = Sys::new(2 * n);
         for (row, b) in sys.a.iter().zip(sys.b.iter()) {
             let mut r = row.clone();
